@@ -548,7 +548,12 @@ class FileSession(Session):
 
     def _exists(self):
         path = self._get_file_path()
-        return os.path.exists(path)
+        # A name ending in LOCK_SUFFIX is the lock file of some session,
+        # never session data (clean_up and __len__ skip it the same way).
+        return (
+            not path.endswith(self.LOCK_SUFFIX)
+            and os.path.exists(path)
+        )
 
     def _load(self, path=None):
         assert self.locked, ('The session load without being locked.  '
